@@ -16,6 +16,7 @@ def RetOk (a : Action) (L : Nat) : Prop :=
   match a with
   | .call i => i.retEnd - i.retStart = 0 ∨ (i.retStart ≤ i.retEnd ∧ i.retEnd ≤ L)
   | .create _ => True
+  | .eofCreate _ => True
 
 /-- an action leaves the instruction: invariant, gas for the child (and at least 1 more) consumed -/
 structure ActOk (s0 : IState) (a : Action) (s' : IState) : Prop where
@@ -24,32 +25,39 @@ structure ActOk (s0 : IState) (a : Action) (s' : IState) : Prop where
   gas : measure s' + a.gasLimit + 1 ≤ measure s0
   ret : RetOk a (clen s'.mem)
 
-/-- what one resolved instruction may do (inductive predicates: looking at a statement never evaluates the
-instruction) -/
-inductive DoneGood (s0 : IState) : Done → Prop
-  | next {s' : IState} (h : Next s0 s') : DoneGood s0 (.next s')
-  | action {a : Action} {s' : IState} (h : ActOk s0 a s') : DoneGood s0 (.action a s')
-  | halt {r : IResult} {o : List Nat} {s' : IState} (h : Halt s0 s') : DoneGood s0 (.halt r o s')
+/-- what one resolved instruction may do, for given post-conditions of halting (`H`), continuing (`N`) and
+handing out an action (`A`) (inductive predicates: looking at a statement never evaluates the instruction) -/
+inductive DoneGoodP (H N : IState → Prop) (A : Action → IState → Prop) : Done → Prop
+  | next {s' : IState} (h : N s') : DoneGoodP H N A (.next s')
+  | action {a : Action} {s' : IState} (h : A a s') : DoneGoodP H N A (.action a s')
+  | halt {r : IResult} {o : List Nat} {s' : IState} (h : H s') : DoneGoodP H N A (.halt r o s')
 
-/-- what one instruction may do, started in `s0` (after the opcode fetch) -/
-inductive Good (s0 : IState) : Outcome → Prop
-  | pure {d : Done} (h : DoneGood s0 d) : Good s0 (.pure d)
-  | host {op : HostOp} {k : HostResp → Done} (h : ∀ r, RespOk r → DoneGood s0 (k r)) : Good s0 (.host op k)
+inductive GoodP (H N : IState → Prop) (A : Action → IState → Prop) : Outcome → Prop
+  | pure {d : Done} (h : DoneGoodP H N A d) : GoodP H N A (.pure d)
+  | host {op : HostOp} {k : HostResp → Done} (h : ∀ r, RespOk r → DoneGoodP H N A (k r)) :
+      GoodP H N A (.host op k)
+
+/-- legacy code: what one instruction may do, started in `s0` (after the opcode fetch) -/
+abbrev DoneGood (s0 : IState) : Done → Prop := DoneGoodP (Halt s0) (Next s0) (ActOk s0)
+abbrev Good (s0 : IState) : Outcome → Prop := GoodP (Halt s0) (Next s0) (ActOk s0)
 
 section ctl
 variable {s0 s : IState}
 
-theorem toDone_good (hs : Start s0) {e : Exec Unit}
-    (h : Exec.Sat e (Halt s0) (fun _ s' => Done1 s0 s')) : DoneGood s0 e.toDone := by
+theorem toDoneP {N : IState → Prop} {A : Action → IState → Prop} {Q : IState → Prop} {e : Exec Unit}
+    (hN : ∀ s', Q s' → N s') (h : Exec.Sat e (Halt s0) (fun _ s' => Q s')) :
+    DoneGoodP (Halt s0) N A e.toDone := by
   cases h with
-  | ok h => exact .next (Done1.next hs h)
+  | ok h => exact .next (hN _ h)
   | halt h => exact .halt h
 
+theorem toDone_good (hs : Start s0) {e : Exec Unit}
+    (h : Exec.Sat e (Halt s0) (fun _ s' => Done1 s0 s')) : DoneGood s0 e.toDone :=
+  toDoneP (fun _ hq => Done1.next hs hq) h
+
 theorem toDone_next {e : Exec Unit}
-    (h : Exec.Sat e (Halt s0) (fun _ s' => Next s0 s')) : DoneGood s0 e.toDone := by
-  cases h with
-  | ok h => exact .next h
-  | halt h => exact .halt h
+    (h : Exec.Sat e (Halt s0) (fun _ s' => Next s0 s')) : DoneGood s0 e.toDone :=
+  toDoneP (fun _ hq => hq) h
 
 /-- the action post-condition before the instruction pointer is looked at -/
 def ActRel (s0 : IState) (a : Action) (s' : IState) : Prop :=
@@ -67,11 +75,38 @@ theorem ActRel.ok (hs : Start s0) {a : Action} {s' : IState} (h : ActRel s0 a s'
       · exact Or.inl h0
       · exact Or.inr ⟨h1, Nat.le_trans h2 hr.memL⟩
     | create i => trivial
+    | eofCreate i => trivial
+
+theorem toDoneActionP {N : IState → Prop} {A : Action → IState → Prop} {e : Exec Action}
+    (hA : ∀ a s', ActRel s0 a s' → A a s') (h : Exec.Sat e (Halt s0) (fun a s' => ActRel s0 a s')) :
+    DoneGoodP (Halt s0) N A e.toDoneAction := by
+  cases h with
+  | ok h => exact .action (hA _ _ h)
+  | halt h => exact .halt h
+
+theorem toDoneActionQ {N : IState → Prop} {A QA : Action → IState → Prop} {e : Exec Action}
+    (hA : ∀ a s', QA a s' → A a s') (h : Exec.Sat e (Halt s0) (fun a s' => QA a s')) :
+    DoneGoodP (Halt s0) N A e.toDoneAction := by
+  cases h with
+  | ok h => exact .action (hA _ _ h)
+  | halt h => exact .halt h
 
 theorem toDoneAction_good (hs : Start s0) {e : Exec Action}
-    (h : Exec.Sat e (Halt s0) (fun a s' => ActRel s0 a s')) : DoneGood s0 e.toDoneAction := by
+    (h : Exec.Sat e (Halt s0) (fun a s' => ActRel s0 a s')) : DoneGood s0 e.toDoneAction :=
+  toDoneActionP (fun _ _ hq => ActRel.ok hs hq) h
+
+/-- an instruction that either hands out an action or continues (EXT*CALL) -/
+theorem toDoneOptActionP {N : IState → Prop} {A : Action → IState → Prop} {e : Exec (Option Action)}
+    (hN : ∀ s', Done1 s0 s' → N s') (hA : ∀ a s', ActRel s0 a s' → A a s')
+    (h : Exec.Sat e (Halt s0) (fun oa s' => match oa with
+      | some a => ActRel s0 a s'
+      | none => Done1 s0 s')) :
+    DoneGoodP (Halt s0) N A e.toDoneOptAction := by
   cases h with
-  | ok h => exact .action (ActRel.ok hs h)
+  | @ok oa s' h =>
+    cases oa with
+    | some a => exact .action (hA _ _ h)
+    | none => exact .next (hN _ h)
   | halt h => exact .halt h
 
 /-! ### PUSHn, JUMP, JUMPI -/
@@ -165,62 +200,81 @@ theorem eofGuard_sat {α} (hs : Start s0) (k : Unit → M α) {Q : α → IState
   rw [hs.legacy]
   exact sat_halt hs.rel.toCore.toHalt
 
-theorem execPure_sat (hs : Start s0) (i : Instr) (m : M Unit) (hm : execPure i = some m) :
-    Exec.Sat (m s0) (Halt s0) (fun _ s' => Next s0 s') := by
-  have h := hs.rel
-  cases i <;> simp only [execPure, Option.some.injEq, reduceCtorEq] at hm <;> subst hm
+/-- the instructions whose handler neither moves the instruction pointer nor looks at the code format -/
+def isOrd : Instr → Bool
+  | .stop | .invalid | .unknown | .unop _ _ | .binop _ _ _ | .terop _ _ | .exp | .pushVal _ _ _ | .difficulty
+  | .calldataload | .calldatacopy | .returndatacopy | .blobhash | .pop | .push0 | .dup _ | .swap _
+  | .mload | .mstore | .mstore8 | .mcopy | .jumpdest | .ret | .revert => true
+  | _ => false
+
+/-- every ordinary pure instruction, in any code format: invariant kept, no fault, ≥ 1 gas when it continues -/
+theorem execOrd_sat (hb : Base s0) (i : Instr) (m : M Unit) (hm : execPure i = some m) (ho : isOrd i = true) :
+    Exec.Sat (m s0) (Halt s0) (fun _ s' => Done1 s0 s') := by
+  have h := hb.rel
+  cases i <;> (try (simp only [isOrd, Bool.false_eq_true] at ho)) <;>
+    (try (simp only [execPure, Option.some.injEq, reduceCtorEq] at hm)) <;> (try subst hm)
   case stop => exact haltWith_sat h _
   case invalid => exact haltWith_sat h _
   case unknown => exact haltWith_sat h _
-  case eofOnly => exact eofGuard_sat hs _
-  case rjump => unfold rjumpI; exact eofGuard_sat hs _
-  case rjumpi => unfold rjumpiI; exact eofGuard_sat hs _
-  case rjumpv => unfold rjumpvI; exact eofGuard_sat hs _
-  case callf => unfold callfI; exact eofGuard_sat hs _
-  case retf => unfold retfI; exact eofGuard_sat hs _
-  case jumpf => unfold jumpfI; exact eofGuard_sat hs _
-  case dupn => unfold dupnI; exact eofGuard_sat hs _
-  case swapn => unfold swapnI; exact eofGuard_sat hs _
-  case exchange => unfold exchangeI; exact eofGuard_sat hs _
-  case dataload => unfold dataloadI; exact eofGuard_sat hs _
-  case dataloadn => unfold dataloadnI; exact eofGuard_sat hs _
-  case datasize => unfold datasizeI; exact eofGuard_sat hs _
-  case datacopy => unfold datacopyI; exact eofGuard_sat hs _
-  case returndataload => unfold returndataloadI; exact eofGuard_sat hs _
-  case returnContract =>
-    show Exec.Sat (if !s0.isEofInit then _ else _) _ _
-    rw [hs.notInit]
-    exact sat_halt h.toCore.toHalt
-  case unop g f => exact sat_next_of_done1 hs (unopI_sat h _ f (Tier.cost_pos g))
-  case binop g k f => exact sat_next_of_done1 hs (binopI_sat h _ k f (Tier.cost_pos g))
-  case terop g f => exact sat_next_of_done1 hs (teropI_sat h _ f (Tier.cost_pos g))
-  case exp => exact sat_next_of_done1 hs (expI_sat h)
-  case pushVal g k v => exact sat_next_of_done1 hs (pushValI_sat h _ k v (Tier.cost_pos g))
-  case difficulty => exact sat_next_of_done1 hs (difficultyI_sat hs h)
-  case calldataload => exact sat_next_of_done1 hs (calldataloadI_sat h)
+  case unop g f => exact unopI_sat h _ f (Tier.cost_pos g)
+  case binop g k f => exact binopI_sat h _ k f (Tier.cost_pos g)
+  case terop g f => exact teropI_sat h _ f (Tier.cost_pos g)
+  case exp => exact expI_sat h
+  case pushVal g k v => exact pushValI_sat h _ k v (Tier.cost_pos g)
+  case difficulty => exact difficultyI_sat hb.envOk h
+  case calldataload => exact calldataloadI_sat h
   case calldatacopy =>
-    exact sat_next_of_done1 hs (copyToMem_sat h _ (fun s' hi _ _ => by rw [hi]; exact hs.inLen))
-  case codecopy =>
-    refine sat_next_of_done1 hs (copyToMem_sat h _ (fun s' _ hc ho => ?_))
-    have := hs.origLe
-    simp only [List.length_take]
-    rw [ho]; omega
-  case returndatacopy => exact sat_next_of_done1 hs (returndatacopyI_sat h)
-  case blobhash => exact sat_next_of_done1 hs (blobhashI_sat h)
-  case pop => exact sat_next_of_done1 hs (popI_sat h)
-  case push0 => exact sat_next_of_done1 hs (push0I_sat h)
-  case push n => exact pushI_sat hs h _ (by have := n.isLt; omega)
-  case dup n => exact sat_next_of_done1 hs (dupI_sat h _ (by omega))
-  case swap n => exact sat_next_of_done1 hs (swapI_sat h _ (by omega) (by have := n.isLt; omega))
-  case mload => exact sat_next_of_done1 hs (mloadI_sat h)
-  case mstore => exact sat_next_of_done1 hs (mstoreI_sat h)
-  case mstore8 => exact sat_next_of_done1 hs (mstore8I_sat h)
-  case mcopy => exact sat_next_of_done1 hs (mcopyI_sat h)
-  case jump => exact jumpI_sat hs h
-  case jumpi => exact jumpiI_sat hs h
-  case jumpdest => exact sat_next_of_done1 hs (jumpdest_sat h)
-  case ret => exact sat_next_of_done1 hs (returnInner_sat h _)
-  case revert => exact sat_next_of_done1 hs (revertI_sat h)
+    exact copyToMem_sat h _ (fun s' hi _ _ => by rw [hi]; exact hb.inLen) _ (fun x _ => sat_ok rfl)
+  case returndatacopy => exact returndatacopyI_sat h
+  case blobhash => exact blobhashI_sat h
+  case pop => exact popI_sat h
+  case push0 => exact push0I_sat h
+  case dup n => exact dupI_sat h _ (by omega)
+  case swap n => exact swapI_sat h _ (by omega) (by have := n.isLt; omega)
+  case mload => exact mloadI_sat h
+  case mstore => exact mstoreI_sat h
+  case mstore8 => exact mstore8I_sat h
+  case mcopy => exact mcopyI_sat h
+  case jumpdest => exact jumpdest_sat h
+  case ret => exact returnInner_sat h _
+  case revert => exact revertI_sat h
+
+theorem execPure_sat (hs : Start s0) (i : Instr) (m : M Unit) (hm : execPure i = some m) :
+    Exec.Sat (m s0) (Halt s0) (fun _ s' => Next s0 s') := by
+  have h := hs.rel
+  by_cases ho : isOrd i = true
+  · exact sat_next_of_done1 hs (execOrd_sat hs.toBase i m hm ho)
+  · cases i <;> (try (simp only [isOrd, not_true_eq_false] at ho)) <;>
+      (try (simp only [execPure, Option.some.injEq, reduceCtorEq] at hm)) <;> (try subst hm)
+    case rjump => unfold rjumpI; exact eofGuard_sat hs _
+    case rjumpi => unfold rjumpiI; exact eofGuard_sat hs _
+    case rjumpv => unfold rjumpvI; exact eofGuard_sat hs _
+    case callf => unfold callfI; exact eofGuard_sat hs _
+    case retf => unfold retfI; exact eofGuard_sat hs _
+    case jumpf => unfold jumpfI; exact eofGuard_sat hs _
+    case dupn => unfold dupnI; exact eofGuard_sat hs _
+    case swapn => unfold swapnI; exact eofGuard_sat hs _
+    case exchange => unfold exchangeI; exact eofGuard_sat hs _
+    case dataload => unfold dataloadI; exact eofGuard_sat hs _
+    case dataloadn => unfold dataloadnI; exact eofGuard_sat hs _
+    case datasize => unfold datasizeI; exact eofGuard_sat hs _
+    case datacopy => unfold datacopyI; exact eofGuard_sat hs _
+    case returndataload => unfold returndataloadI; exact eofGuard_sat hs _
+    case returnContract =>
+      unfold returnContractI
+      refine sat_bind (m := requireInitEof) (Q := fun _ _ => False) ?_ (fun _ _ hf => hf.elim)
+      unfold requireInitEof
+      rw [hs.notInit]
+      exact sat_halt h.toCore.toHalt
+    case codesize => exact sat_next_of_done1 hs (codesizeI_sat hs.legacy h)
+    case codecopy =>
+      refine sat_next_of_done1 hs (copyToMem_sat h _ (fun s' _ hc ho => ?_) _ (assumeNotEof_sat hs.legacy))
+      have := hs.origLe
+      simp only [List.length_take]
+      rw [ho]; omega
+    case push n => exact pushI_sat hs h _ (by have := n.isLt; omega)
+    case jump => exact jumpI_sat hs h
+    case jumpi => exact jumpiI_sat hs h
 
 end ctl
 
